@@ -276,7 +276,7 @@ theorem nodup_step (a : List (Str × Str)) (c : Bool) (k v : Str) (h : attrKeysN
 theorem attrKeysNodup_rootAttrs (f : Fields) : attrKeysNodup (rootAttrs f) = true := by
   unfold rootAttrs
   exact nodup_step _ _ _ _ (nodup_step _ _ _ _ (nodup_step _ _ _ _ (nodup_step _ _ _ _
-    (attrKeysNodup_setAttr _ _ _ (attrKeysNodup_setAttrs _ [] rfl)))))
+    (attrKeysNodup_setAttr _ _ _ (attrKeysNodup_setAttrs _ _ (attrKeysNodup_setAttrs _ [] rfl))))))
 
 theorem attrKeysNodup_htmlAttrs (f : Fields) : attrKeysNodup (htmlAttrs f) = true :=
   attrKeysNodup_setAttrs _ [] rfl
@@ -486,13 +486,14 @@ theorem all_step (p : Str × Str → Bool) (a : List (Str × Str)) (c : Bool) (k
 
 /-- every attribute of the primary instance root is one of the user's `attribute::` columns or one of
     the five settings-driven attributes -/
-theorem all_rootAttrs (p : Str × Str → Bool) (f : Fields) (hattr : f.attrib.all p = true)
+theorem all_rootAttrs (p : Str × Str → Bool) (f : Fields) (hinst : f.instAttrs.all p = true)
+    (hattr : f.attrib.all p = true)
     (h1 : p ("id".toList, f.idString) = true) (h2 : p ("xmlns".toList, f.instanceXmlns) = true)
     (h3 : p ("version".toList, f.version) = true) (h4 : p ("odk:prefix".toList, f.pfx) = true)
     (h5 : p ("odk:delimiter".toList, f.delimiter) = true) : (rootAttrs f).all p = true := by
   unfold rootAttrs
   exact all_step p _ _ _ _ (all_step p _ _ _ _ (all_step p _ _ _ _ (all_step p _ _ _ _
-    (all_setAttr p _ _ _ (all_setAttrs p _ [] rfl hattr) h1) h2) h3) h4) h5
+    (all_setAttr p _ _ _ (all_setAttrs p _ _ (all_setAttrs p _ [] rfl hinst) hattr) h1) h2) h3) h4) h5
 
 theorem htmlAttrs_plain (f : Fields) (hns : f.namespaces = []) (hef : f.entityFeatures = false) :
     htmlAttrs f = NSMAP := by
@@ -504,7 +505,7 @@ theorem htmlAttrs_plain (f : Fields) (hns : f.namespaces = []) (hef : f.entityFe
     entities the guard `FrameOK` says no more than: the form name is an NCName and the header
     strings (title, id, version, style, …) consist of XML characters. -/
 theorem frameOK_plain (f : Fields) (hns : f.namespaces = []) (hef : f.entityFeatures = false)
-    (hattr : f.attrib = []) (hname : isName f.name = true) (hq : isQName f.name = true)
+    (hattr : f.attrib = []) (hinst : f.instAttrs = []) (hname : isName f.name = true) (hq : isQName f.name = true)
     (hnp : ∃ l, splitQName f.name = (none, l))
     (htitle : f.title.all isXmlChar = true) (hid : f.idString.all isXmlChar = true)
     (hstyle : f.style.all isXmlChar = true) (hix : f.instanceXmlns.all isXmlChar = true)
@@ -517,6 +518,7 @@ theorem frameOK_plain (f : Fields) (hns : f.namespaces = []) (hef : f.entityFeat
   obtain ⟨l, hl⟩ := hnp
   have hroot : (rootAttrs f).all (attrOk (declaredPrefixes (rootAttrs f) ++ declaredPrefixes NSMAP)) = true := by
     apply all_rootAttrs
+    · rw [hinst]; rfl
     · rw [hattr]; rfl
     · exact attrOk_intro _ _ _ (by decide) hid (qnameOk_unprefixed _ _ "id".toList (by decide) (by decide))
     · exact attrOk_intro _ _ _ (by decide) hix (qnameOk_unprefixed _ _ "xmlns".toList (by decide) (by decide))
@@ -577,6 +579,13 @@ example : ∃ u, parseDoc (renderDoc true (assemble exFields exItext exRootKids 
 example : Skeleton (assemble exFields exItext exRootKids exRest exBody) "my form <1>".toList = true :=
   skeleton_assembled exFields (by decide +kernel) _ _ _ _
 example : lookup "id".toList (rootAttrs exFields) = some "my form <1>".toList := root_id_is_form_id exFields
+-- a settings-level `instance::id` / `instance::version` column cannot displace the form id either (Section.xml_instance
+-- creates the root with them, Survey.xml_instance sets `id` afterwards)
+def exHijack : Fields :=
+  { name := "d".toList, title := [], idString := "fid".toList,
+    instAttrs := [("id".toList, "hijack".toList), ("k".toList, "v".toList)] }
+example : lookup "id".toList (rootAttrs exHijack) = some "fid".toList := root_id_is_form_id _
+example : rootAttrs exHijack = [("id".toList, "fid".toList), ("k".toList, "v".toList)] := by decide +kernel
 -- ... and their conclusion checked independently by kernel evaluation of writer, reader and oracle
 theorem ex_holds_compact :
     holds (renderDoc false (assemble exFields exItext exRootKids exRest exBody)) "my form <1>".toList = true := by
@@ -596,7 +605,7 @@ example : (htmlAttrs exFields).drop 7 =
 
 -- the plain-header guard instantiated
 example : FrameOK { name := "data".toList, title := "T <&>".toList, idString := "f 1".toList, version := "2".toList } = true :=
-  frameOK_plain _ rfl rfl rfl (by decide) (by decide) ⟨"data".toList, by decide⟩ (by decide) (by decide) (by decide) (by decide)
+  frameOK_plain _ rfl rfl rfl rfl (by decide) (by decide) ⟨"data".toList, by decide⟩ (by decide) (by decide) (by decide) (by decide)
     (by decide) (by decide) (by decide) (by decide) (by decide) (by decide) (by decide)
 
 -- history: the shapes of the former findings F2, F2b, F3, F4 violate the frame guard, and without the validation
